@@ -1,0 +1,16 @@
+//go:build verif
+
+package kubeeventsmanager
+
+// VerifC01SharedStopped tells whether the shared informer of the factory currently stored under idx
+// has stopped (its Run has returned: it will never call a handler again); ok is false when no
+// factory is stored under idx. Read-only.
+func VerifC01SharedStopped(idx FactoryIndex) (stopped bool, ok bool) {
+	DefaultFactoryStore.mu.Lock()
+	f, ok := DefaultFactoryStore.data[idx]
+	DefaultFactoryStore.mu.Unlock()
+	if !ok {
+		return false, false
+	}
+	return f.shared.ForResource(idx.GVR).Informer().IsStopped(), true
+}
